@@ -49,6 +49,7 @@ ASSUMPTIONS = [
 ]
 
 _seq = [0]
+UNIT_SECONDS = {'seconds': 1, 'minutes': 60, 'hours': 3600, 'days': 86400, 'weeks': 7 * 86400}
 
 
 def gen(t, tier):
@@ -83,11 +84,12 @@ def gen(t, tier):
                     cs.append(c)
             sc['ops'].append(['req', cs])
         elif k == 'adv':
-            sc['ops'].append(['adv', t.pick([0.3, 0.6, 1.0, 1.5, 2.0, 'boundary', 'boundary', 10, 3600, -2, -0.4])])
+            sc['ops'].append(['adv', t.pick([0.3, 0.6, 1.0, 1.5, 2.0, 'boundary', 'boundary', 10, 3600, -2, -0.4, 7200, 90000,
+                                             3 * 86400, 8 * 86400, 61 * 86400])])
         elif k == 'thr':
             kind = t.weighted([('none', 1), ('rel', 4), ('time', 3), ('mtime', 2)])
             if kind == 'rel':
-                sc['ops'].append(['thr', {'kind': 'rel', 'unit': t.pick(['seconds', 'seconds', 'minutes']),
+                sc['ops'].append(['thr', {'kind': 'rel', 'unit': t.pick(['seconds', 'seconds', 'minutes', 'hours', 'days', 'weeks']),
                                           'n': t.pick([0, 1, 2, 5, 60])}])
             elif kind == 'time':
                 sc['ops'].append(['thr', {'kind': 'time', 'offset': t.pick([-3600, -5, -2, -1, 0, 1, 5])}])
@@ -241,7 +243,7 @@ def run(sc, tape):
         if t is None or t['kind'] == 'none':
             return None
         if t['kind'] == 'rel':
-            secs = t['n'] * (60 if t['unit'] == 'minutes' else 1)
+            secs = t['n'] * UNIT_SECONDS[t['unit']]
             return float(int(clock.now) - secs), float(int(clock.now + 0.01) - secs)
         if t['kind'] == 'time':
             return float(t['abs']), float(t['abs'])
@@ -420,7 +422,7 @@ def run(sc, tape):
         if thr == 'error' or thr2 == 'error' or upfail[0]:
             return
         t = state['thr']
-        short_rel = t is not None and t['kind'] == 'rel' and t['n'] * (60 if t['unit'] == 'minutes' else 1) < 5
+        short_rel = t is not None and t['kind'] == 'rel' and t['n'] * UNIT_SECONDS[t['unit']] < 5
         wanted = set(c for r in reqs for c in r)
         for c in wanted:
             b = before[c]
